@@ -55,7 +55,12 @@ def rollView (s : SyncCase) : Option RollView :=
         getNamespace r == getNamespace cached &&
         (match edits.find? (fun e => e.1 == revResource && e.2.2.1 == getName r) with
          | some e => e.2.2.2
-         | none => controllerUID r == uid))
+         | none =>
+             -- claimed without an edit: controlled by the parent and selected by its revision selector
+             controllerUID r == uid &&
+             (match s.cfg.makeSelector parent [(Generated.labelKeyAPIGroup, s.cfg.parentGroup), (Generated.labelKeyResource, s.cfg.parentResource)] with
+              | .ok sel => sel.matches (labelsOf r)
+              | .error _ => false)))
       let latestRev := mine.find? (fun r => (r.getD "parentPatch").eqv latestPatch)
       let oldRevs := mine.filter (fun r => !(r.getD "parentPatch").eqv latestPatch)
       let kids := ((s.respChildren h).map (desiredAsCompared s parent)).filter (fun d => s.cfg.isRolling (apiGroup (getAPIVersion d)) (getKind d))
@@ -122,6 +127,9 @@ def oracleC07 (s : SyncCase) : Option String :=
           firstSome (v.after.filter (· != c)) (fun d =>
             check (v.healthy s d) s!"{c.2.2} moved to the latest revision although {d.2.2}, already on it, is missing, not up to date or failing its checks")
       | _ => none) fun _ =>
+    -- every parent revision that is still alive is asked about the parent as it was at that revision
+    orElse (firstSome v.oldRevs (fun rev => check ((hookOfRev s v rev).isSome)
+      s!"no hook call was made with the parent fields recorded in ControllerRevision {getName rev}")) fun _ =>
     -- parent fields outside the revisioned paths reach every revision's hook call
     orElse (firstSome hs (fun h => check ((stripPaths (s.hookParent h) v.fps).eqv (stripPaths v.mainParent v.fps))
       "a revision's hook call was sent a parent that differs outside the revisioned field paths")) fun _ =>
